@@ -12,6 +12,7 @@ int cv_addr_assign(const char *s);                 /* model of Ip::Address::oper
 int cv_addr_is_any(void);                          /* isAnyAddr() */
 int cv_addr_is_v6(void);                           /* isIPv6() */
 unsigned short cv_addr_set_port(unsigned short p); /* port(unsigned short) */
+void cv_set_string(const char *s, unsigned long len);   /* harness: the string the libc models scan; len = offset of its first NUL */
 void cv_addr_record_text(void);                    /* EPRT wrapper: ask cv_addr_assign to copy the assigned text */
 #ifdef __cplusplus
 }
@@ -20,9 +21,9 @@ struct cv_ghost {
     /* ---- Ip::Address stub ---- */
     int addr_assigns;             /* number of operator=(const char*) calls */
     const char *addr_src;         /* argument of the last one */
-    int addr_want_text;           /* set by the EPRT wrapper: copy the assigned text into addr_text */
+    int addr_want_text;           /* set by the EPRT wrapper: record the length of the assigned text and its byte at the ghost index */
     int addr_len;                 /* length of the assigned text (-1: not NUL-terminated within MAX_IPSTRLEN) */
-    char addr_text[CV_MAX_IPSTRLEN];
+    char addr_text_g;             /* byte g of the assigned text (g = the contract's ghost index), 0 when g >= length */
     int addr_any;                 /* verdict of isAnyAddr() after the last assignment */
     int addr_v6;                  /* verdict of isIPv6() after the last assignment */
     int addr_port_calls;          /* number of port(unsigned short) calls */
@@ -50,7 +51,7 @@ extern struct cv_ghost cvg;
 #define cv_addr_src cvg.addr_src
 #define cv_addr_want_text cvg.addr_want_text
 #define cv_addr_len cvg.addr_len
-#define cv_addr_text cvg.addr_text
+#define cv_addr_text_g cvg.addr_text_g
 #define cv_addr_any cvg.addr_any
 #define cv_addr_v6 cvg.addr_v6
 #define cv_addr_port_calls cvg.addr_port_calls
